@@ -1,7 +1,7 @@
 (* C07 - polynomial integration yields the antiderivative through the given knot. *)
 From Coq Require Import List ZArith Reals Lra Lia.
 From Flocq Require Import Core BinarySingleNaN.
-Require Import PP.FloatModel PP.Expr PP.FloatOps PP.FloatFacts PP.RealOps PP.Shapes PP.ErrorBound PP.PolyFacts PP.Model.PwModel
+Require Import PP.FloatModel PP.Expr PP.FloatOps PP.FloatFacts PP.RealOps PP.Shapes PP.ErrorBound PP.SafeDec PP.PolyFacts PP.Model.PwModel
   PP.Proofs.KernelBounds PP.Proofs.UlpProofs PP.Gen.Kernels PP.Props.C01.
 Import ListNotations.
 Local Open Scope R_scope.
@@ -362,6 +362,36 @@ Theorem C07_roundtrip_refuted_when_subnormal :
   ~ (Rabs (B2R (fmul (of_bits 4616189618054758400) (fdiv (of_bits 2) (of_bits 4616189618054758400))) - B2R (of_bits 2))
      <= ulp radix2 fexp64 (B2R (of_bits 2))).
 Proof. rewrite (fmul_comm (of_bits 4616189618054758400)). exact roundtrip_subnormal_refuted. Qed.
+
+
+(* ---- non-vacuity of the knot_float theorems: a concrete polynomial and knot satisfy `safe` ---- *)
+Example C07_Poly0_knot_hypotheses_hold : safe (map of_bits [4607632778762754458; 4610334938539176755; 13839786834890902733]%Z) e_knot0.
+Proof. apply safeb_sound; vm_compute; reflexivity. Qed.
+Example C07_Poly1_knot_hypotheses_hold : safe (map of_bits [4607632778762754458; 13835733595226269286; 4610334938539176755; 13839786834890902733]%Z) e_knot1.
+Proof. apply safeb_sound; vm_compute; reflexivity. Qed.
+Example C07_Poly2_knot_hypotheses_hold : safe (map of_bits [4607632778762754458; 13835733595226269286; 4604480259023595110; 4610334938539176755; 13839786834890902733]%Z) e_knot2.
+Proof. apply safeb_sound; vm_compute; reflexivity. Qed.
+Example C07_Poly3_knot_hypotheses_hold : safe (map of_bits [4607632778762754458; 13835733595226269286; 4604480259023595110; 4615964438073389875; 4610334938539176755; 13839786834890902733]%Z) e_knot3.
+Proof. apply safeb_sound; vm_compute; reflexivity. Qed.
+Example C07_Poly4_knot_hypotheses_hold : safe (map of_bits [4607632778762754458; 13835733595226269286; 4604480259023595110; 4615964438073389875; 13825150136101948621; 4610334938539176755; 13839786834890902733]%Z) e_knot4.
+Proof. apply safeb_sound; vm_compute; reflexivity. Qed.
+Example C07_Poly5_knot_hypotheses_hold : safe (map of_bits [4607632778762754458; 13835733595226269286; 4604480259023595110; 4615964438073389875; 13825150136101948621; 4563407430421976187; 4610334938539176755; 13839786834890902733]%Z) e_knot5.
+Proof. apply safeb_sound; vm_compute; reflexivity. Qed.
+Example C07_Poly6_knot_hypotheses_hold : safe (map of_bits [4607632778762754458; 13835733595226269286; 4604480259023595110; 4615964438073389875; 13825150136101948621; 4563407430421976187; 4635168068359474381; 4610334938539176755; 13839786834890902733]%Z) e_knot6.
+Proof. apply safeb_sound; vm_compute; reflexivity. Qed.
+Example C07_Poly7_knot_hypotheses_hold : safe (map of_bits [4607632778762754458; 13835733595226269286; 4604480259023595110; 4615964438073389875; 13825150136101948621; 4563407430421976187; 4635168068359474381; 13841250504769798144; 4610334938539176755; 13839786834890902733]%Z) e_knot7.
+Proof. apply safeb_sound; vm_compute; reflexivity. Qed.
+
+(* ... and of the one-ulp round trip: c = 1.1, divisor 3.0 *)
+Example C07_roundtrip_hypotheses_hold :
+  let c := of_bits 4607632778762754458 in let n := of_bits 4613937818241073152 in
+  is_finite c = true /\ is_finite_strict n = true /\ nounder (B2R c / B2R n) /\ noover (B2R c / B2R n) /\
+  noover (B2R (fdiv c n) * B2R n).
+Proof.
+  cbv zeta. split; [reflexivity|]. split; [reflexivity|].
+  assert (S : safe (map of_bits [4607632778762754458]%Z) (Mul (Div (Var 0) (Lit 4613937818241073152)) (Lit 4613937818241073152))) by (apply safeb_sound; vm_compute; reflexivity).
+  cbn in S. destruct S as ((_ & _ & _ & Hu & Ho) & _ & _ & Ho2). unfold litR in *. tauto.
+Qed.
 
 Example C07_example :
   run_kernel [] [] k_Poly2__integral [4607182418800017408; 4611686018427387904; 4613937818241073152; 4607182418800017408; 4621819117588971520]%Z
